@@ -52,13 +52,13 @@ Definition canon (k : pkind) (v : pvals) (p : vec) : pstate :=
   mkP k (canon_vals k v) p (fresh_fun k v) true (segments (v_rad v) (v_len v)).
 
 Ltac unfold_model :=
-  cbv [construct run_init init_ops raw_vals zero_vals step function_changed notify attach has_field guarded
+  cbv [construct0 run_init init_ops raw_vals zero_vals step function_changed notify attach has_field guarded
        with_vals with_pol with_fun with_geom set mkvals get fld_eqb kind vals pol efun att geom
        a_vals a_pol v_ed v_pe v_pl v_sx v_sy v_sz v_mz v_wz v_sw v_wl v_rad v_len
        negb andb canon canon_vals fresh_fun args_of valid positive_fields forallb
        Qle_bool Qnum Qden Z.leb Z.compare Z.mul fst snd clean].
 Ltac unfold_model_in H :=
-  cbv [construct run_init init_ops raw_vals zero_vals step function_changed notify attach has_field guarded
+  cbv [construct0 run_init init_ops raw_vals zero_vals step function_changed notify attach has_field guarded
        with_vals with_pol with_fun with_geom set mkvals get fld_eqb kind vals pol efun att geom
        a_vals a_pol v_ed v_pe v_pl v_sx v_sy v_sz v_mz v_wz v_sw v_wl v_rad v_len
        negb andb canon canon_vals fresh_fun args_of valid positive_fields forallb
@@ -84,7 +84,7 @@ Ltac pos_all T :=
       let p := fresh "p" in let d := fresh "d" in destruct (pos_form x H) as (p & d & ->); clear H
   end.
 
-Lemma construct_valid k v p : valid k v = true -> construct c k (mkA v p) = Some (canon k v p).
+Lemma construct0_valid k v p : valid k v = true -> construct0 c k (mkA v p) = Some (canon k v p).
 Proof.
   intro Hv. pose proof (valid_tests k v Hv) as T.
   destruct v as [ed pe pl sx sy sz mz wz sw wl rad len].
@@ -117,7 +117,7 @@ Ltac kill H := exfalso; unfold_model_in H; discriminate H.
 Ltac three q H :=
   let n := fresh "n" in let d := fresh "d" in destruct q as [n d]; destruct n; [kill H | | kill H].
 
-Lemma construct_some_valid k v p s : construct c k (mkA v p) = Some s -> valid k v = true.
+Lemma construct0_some_valid k v p s : construct0 c k (mkA v p) = Some s -> valid k v = true.
 Proof.
   intro H. destruct v as [ed pe pl sx sy sz mz wz sw wl rad len]. destruct k.
   - three ed H. three rad H. three len H. reflexivity.
@@ -132,66 +132,86 @@ Proof. destruct k, v; reflexivity. Qed.
 Lemma valid_canon k v : valid k (canon_vals k v) = valid k v.
 Proof. destruct k, v; reflexivity. Qed.
 
+Lemma construct_valid k v p : valid k v = true -> vec_is_zero p = false -> construct c k (mkA v p) = Some (canon k v p).
+Proof. intros Hv Hp. unfold construct. cbn [a_pol]. rewrite Hp. apply construct0_valid. exact Hv. Qed.
+
+Lemma construct_some_valid k v p s : construct c k (mkA v p) = Some s -> valid k v = true /\ vec_is_zero p = false.
+Proof.
+  unfold construct. cbn [a_pol]. destruct (vec_is_zero p); [discriminate|]. intro H.
+  split; [eapply construct0_some_valid; eassumption | reflexivity].
+Qed.
+
 (* a state is good when it is the fresh object of some valid parameters *)
-Definition good (k : pkind) (s : pstate) : Prop := exists v p, valid k v = true /\ s = canon k v p.
+Definition good (k : pkind) (s : pstate) : Prop :=
+  exists v p, valid k v = true /\ vec_is_zero p = false /\ s = canon k v p.
 
 Lemma construct_good k a s : construct c k a = Some s -> good k s.
 Proof.
-  destruct a as [v p]. intro H. pose proof (construct_some_valid _ _ _ _ H) as Hv.
-  rewrite (construct_valid _ _ p Hv) in H. inversion H. exists v, p. auto.
+  destruct a as [v p]. intro H. destruct (construct_some_valid _ _ _ _ H) as [Hv Hp].
+  rewrite (construct_valid _ _ p Hv Hp) in H. inversion H. exists v, p. auto.
 Qed.
 
 Lemma good_is_fresh k s : good k s -> construct c k (args_of s) = Some s.
 Proof.
-  intros (v & p & Hv & ->). unfold args_of. cbn [vals pol canon].
-  rewrite construct_valid by (rewrite valid_canon; exact Hv). now rewrite canon_idem.
+  intros (v & p & Hv & Hp & ->). unfold args_of. cbn [vals pol canon].
+  rewrite construct_valid by (try rewrite valid_canon; assumption). now rewrite canon_idem.
 Qed.
 
-Ltac finish_step := split; unfold_model; reflexivity.
+Ltac finish_step Hp := split; [unfold_model; reflexivity | split; [unfold_model; exact Hp | unfold_model; reflexivity]].
 
-Lemma step_good k s o : good k s -> clean k o = true -> good k (fst (step c s o)).
+Lemma step_good k s o : good k s -> clean k o = true ->
+  match o with PSetPol q => vec_is_zero q = false | _ => True end -> good k (fst (step c s o)).
 Proof.
-  intros (v & p & Hv & ->) Hc.
+  intros (v & p & Hv & Hp & ->) Hc Hq.
   exists (vals (fst (step c (canon k v p) o))), (pol (fst (step c (canon k v p) o))).
-  destruct o as [f x | q].
-  2:{ split; [cbn [step fst with_pol vals canon]; rewrite valid_canon; exact Hv|]. destruct k, v; reflexivity. }
+  destruct o as [f x | q | ].
+  2:{ split; [cbn [step fst with_pol vals canon]; rewrite valid_canon; exact Hv|]. split; [exact Hq|]. destruct k, v; reflexivity. }
+  2:{ split; [cbn [step fst attach with_geom vals canon]; rewrite valid_canon; exact Hv|]. split; [exact Hp|]. destruct k, v; reflexivity. }
   pose proof (valid_tests k v Hv) as T.
   destruct v as [ed pe pl sx sy sz mz wz sw wl rad len].
   destruct k; cbn [positive_fields] in T.
   - assert (T1 := T Fed); assert (T5 := T Frad); assert (T6 := T Flen).
     cbn [In get v_ed v_rad v_len] in *.
     specialize (T1 ltac:(tauto)); specialize (T5 ltac:(tauto)); specialize (T6 ltac:(tauto)). clear T Hv.
-    pos_all T1. destruct f; destruct x as [[|px|px] dx]; finish_step.
+    pos_all T1. destruct f; destruct x as [[|px|px] dx]; finish_step Hp.
   - assert (T1 := T Fpe); assert (T2 := T Fpl); assert (T3 := T Fsx); assert (T4 := T Fsy);
     assert (T5 := T Frad); assert (T6 := T Flen).
     cbn [In get v_pe v_pl v_sx v_sy v_rad v_len] in *.
     specialize (T1 ltac:(tauto)); specialize (T2 ltac:(tauto)); specialize (T3 ltac:(tauto));
     specialize (T4 ltac:(tauto)); specialize (T5 ltac:(tauto)); specialize (T6 ltac:(tauto)). clear T Hv.
-    pos_all T1. destruct f; destruct x as [[|px|px] dx]; finish_step.
+    pos_all T1. destruct f; destruct x as [[|px|px] dx]; finish_step Hp.
   - assert (T1 := T Fpe); assert (T2 := T Fpl); assert (T3 := T Fsx); assert (T4 := T Fsy);
     assert (T5 := T Frad); assert (T6 := T Flen).
     cbn [In get v_pe v_pl v_sx v_sy v_rad v_len] in *.
     specialize (T1 ltac:(tauto)); specialize (T2 ltac:(tauto)); specialize (T3 ltac:(tauto));
     specialize (T4 ltac:(tauto)); specialize (T5 ltac:(tauto)); specialize (T6 ltac:(tauto)). clear T Hv.
-    pos_all T1. destruct f; destruct x as [[|px|px] dx]; finish_step.
+    pos_all T1. destruct f; destruct x as [[|px|px] dx]; finish_step Hp.
   - assert (T1 := T Fpe); assert (T2 := T Fpl); assert (T3 := T Fsw); assert (T4 := T Fwl);
     assert (T5 := T Frad); assert (T6 := T Flen).
     cbn [In get v_pe v_pl v_sw v_wl v_rad v_len] in *.
     specialize (T1 ltac:(tauto)); specialize (T2 ltac:(tauto)); specialize (T3 ltac:(tauto));
     specialize (T4 ltac:(tauto)); specialize (T5 ltac:(tauto)); specialize (T6 ltac:(tauto)). clear T Hv.
     pos_all T1. destruct f; destruct x as [[|px|px] dx];
-      try (exfalso; unfold_model_in Hc; discriminate Hc); finish_step.
+      try (exfalso; unfold_model_in Hc; discriminate Hc); finish_step Hp.
 Qed.
 
-Lemma run_cons s o t : fst (run c s (o :: t)) = fst (run c (fst (step c s o)) t).
-Proof. cbn [run]. destruct (step c s o) as [s1 r]. cbn [fst]. destruct (run c s1 t). reflexivity. Qed.
+Lemma pstep_good k s o : good k s -> clean k o = true -> good k (fst (pstep c s o)).
+Proof.
+  intros Hg Hc. destruct o as [f x | q | ]; unfold pstep.
+  - apply step_good; auto.
+  - destruct (vec_is_zero q) eqn:E; [exact Hg | apply step_good; auto].
+  - apply step_good; auto.
+Qed.
+
+Lemma run_cons s o t : fst (run c s (o :: t)) = fst (run c (fst (pstep c s o)) t).
+Proof. cbn [run]. destruct (pstep c s o) as [s1 r]. cbn [fst]. destruct (run c s1 t). reflexivity. Qed.
 
 Lemma run_good k s ops : good k s -> forallb (clean k) ops = true -> good k (fst (run c s ops)).
 Proof.
   revert s; induction ops as [|o t IH]; intros s Hg Hc.
   - exact Hg.
   - cbn [forallb] in Hc. apply andb_true_iff in Hc as [H1 H2].
-    rewrite run_cons. apply IH; [apply step_good; assumption | assumption].
+    rewrite run_cons. apply IH; [apply pstep_good; assumption | assumption].
 Qed.
 
 (* after ANY sequence of setter calls (accepted or rejected, any values, any length) the object is
@@ -210,8 +230,8 @@ Theorem constructor_reports_arguments k a s :
   (forall f, has_field k f = true -> get f (vals s) = get f (a_vals a)) /\
   efun s = fresh_fun k (a_vals a) /\ geom s = segments (v_rad (a_vals a)) (v_len (a_vals a)).
 Proof.
-  destruct a as [v p]. intro H. pose proof (construct_some_valid _ _ _ _ H) as Hv.
-  rewrite (construct_valid _ _ p Hv) in H. inversion H. subst s. cbn [a_pol a_vals kind pol efun geom canon].
+  destruct a as [v p]. intro H. destruct (construct_some_valid _ _ _ _ H) as [Hv Hp].
+  rewrite (construct_valid _ _ p Hv Hp) in H. inversion H. subst s. cbn [a_pol a_vals kind pol efun geom canon].
   repeat split. intros f Hf. destruct k, f, v; try discriminate Hf; reflexivity.
 Qed.
 
@@ -223,7 +243,7 @@ Proof.
   intros H s. assert (G : good KUniform s).
   { apply run_good; [eapply construct_good; eassumption|]. clear. induction ops as [|o t IH]; [reflexivity|].
     cbn [forallb]. rewrite IH. destruct o; reflexivity. }
-  destruct G as (v & p & _ & ->). destruct v; reflexivity.
+  destruct G as (v & p & _ & _ & ->). destruct v; reflexivity.
 Qed.
 
 (* record of an observation on the unchanged implementation: a value <= 0 handed to
